@@ -41,7 +41,17 @@ def call_build(cfg):
     nx, ny, nw = build_ts_X_y(model, X, y, w, same_rows=cfg["same"])
     untouched = numpy.array_equal(y, y0) and (X is None or numpy.array_equal(X, X0)) and \
         (w is None or numpy.array_equal(w, w0))
-    obs = dict(X=_enc(nx), Y=_enc(ny), W=[] if nw is None else _enc(nw),
+    series_kept = True
+    if X is not None:
+        yh = numpy.arange(n, dtype=numpy.float64) + 0.5          # half-integers: an integer table cannot hold them
+        ref = build_ts_X_y(model, numpy.ascontiguousarray(X, dtype=numpy.float64), yh, None, same_rows=cfg["same"])
+        for dt in (numpy.int64, numpy.float32, numpy.int32):
+            got = build_ts_X_y(model, numpy.ascontiguousarray(X).astype(dt), yh, None, same_rows=cfg["same"])
+            for a_, b_ in zip(ref[:2], got[:2]):
+                a_, b_ = numpy.asarray(a_, dtype=float), numpy.asarray(b_, dtype=float)
+                if a_.shape != b_.shape or not numpy.array_equal(a_, b_, equal_nan=True):
+                    series_kept = False
+    obs = dict(series_kept=series_kept, X=_enc(nx), Y=_enc(ny), W=[] if nw is None else _enc(nw),
                nrow=int(sum(1 for r in numpy.asarray(ny, dtype=float) if not numpy.isnan(r).all())))
     return obs, untouched
 
@@ -101,7 +111,7 @@ def c2s_frames(ctx, count, maxn):
                 y = numpy.arange(n, dtype=numpy.float64)
                 Xe = None if cfg["ncol"] == 0 else numpy.array([[100 * (c + 1) + tt for c in range(cfg["ncol"])] for tt in range(n)], dtype=numpy.float64)
                 pr = DummyTimeSeriesRegressor(past=past, delay2=d2).fit(Xe, y).predict(Xe, y)
-                t.update(pred=_enc(pr), X=[], Y=[], W=[], nrow=0)
+                t.update(pred=_enc(pr), X=[], Y=[], W=[], nrow=0, series_kept=True)
                 traces.append(t)
                 ctx.case(("dummy", n, past, d2, cfg["ncol"]))
             except Exception as e:
